@@ -30,7 +30,7 @@ from decimal import Decimal
 import math
 from measured import Measurement
 U1, U2 = measured.si.Meter, measured.us.Foot
-a, s, b, t = 0.0, 0.0, -0.125, 0.0
+a, s, b, t = 0.0, 0.0, 2.0, 0.0
 expr = lambda: Measurement(a * U1, s) / Measurement(b * U2, t)
 s_ = float(s) if True else 0.0
 t_ = float(t) if True else 0.0
